@@ -377,11 +377,10 @@ func (m *{{ .Name }}) Delete(k {{ .KeyType }}) {
 }
 
 func (m *{{ .Name }}) delete(k {{ .KeyType }}) {
-var kk {{ .KeyType }}
 	i := -1
-
-	for i, kk = range m.order {
+	for j, kk := range m.order {
 		if kk == k {
+			i = j
 			break
 		}
 	}
@@ -397,10 +396,16 @@ func (m *{{ .Name }}) Filter(fn filter{{ .CapitalizedName }}Func) {
 	m.mx.Lock()
 	defer m.mx.Unlock()
 
+	// Collect the keys first: deleting while ranging over m.order would skip
+	// the entry that follows a removed one.
+	var drop []{{ .KeyType }}
 	for _, k := range m.order {
 		if !fn(k, m.data[k]) {
-			m.delete(k)
+			drop = append(drop, k)
 		}
+	}
+	for _, k := range drop {
+		m.delete(k)
 	}
 }
 
